@@ -28,4 +28,11 @@ out.append("")
 out.append("%d seeded changes; %d caught by at least one listed check, %d not caught." % (caught + missed, caught, missed))
 txt = "\n".join(out) + "\n"
 open(os.path.join(ROOT, "seeded", "RESULTS.md"), "w").write(txt)
+# the same table goes into DESIGN.md section 6, between the markers
+dp = os.path.join(ROOT, "DESIGN.md")
+d = open(dp).read()
+b, e = "<!-- SEEDED-TABLE-BEGIN -->", "<!-- SEEDED-TABLE-END -->"
+if b in d and e in d:
+    d = d[:d.index(b) + len(b)] + "\n" + txt + d[d.index(e):]
+    open(dp, "w").write(d)
 print(txt)
